@@ -380,6 +380,23 @@ pub fn state_close<T: crate::sc::Sc>(w: &crate::run::World<T>, a: &crate::run::S
         return None;
     }
     let phiw = crate::refmath::phi_w::<T>(&w.spec, &w.x, w.w.as_ref(), &p);
+    if ca == cb {
+        // identical coefficients: the residuals Yw - Phiw.C can only differ by how the product
+        // and the difference were rounded - a plain forward-error bound, no conditioning and no
+        // truncation threshold involved
+        let fin = |v: f64| if v.is_finite() { v } else { 0.0 };
+        let cmax = to_t(ca).iter().map(|v| fin(v.f().abs())).fold(0.0f64, f64::max);
+        let yw = w.weighted_y().iter().map(|v| fin(v.f().abs())).fold(0.0f64, f64::max);
+        let pmax = phiw.iter().map(|v| fin(v.f().abs())).fold(0.0f64, f64::max);
+        let scale = yw + pmax * cmax * w.m() as f64;
+        let rel = 64.0 * (w.m() as f64 + 8.0) * T::u();
+        let ok = ra.len() == rb.len()
+            && to_t(ra).iter().zip(to_t(rb).iter()).all(|(p, q)| {
+                let (p, q) = (p.f(), q.f());
+                p == q || !p.is_finite() || !q.is_finite() || (p - q).abs() <= rel * scale + 8.0 * T::tiny()
+            });
+        return Some(ok);
+    }
     let m = crate::refmath::M64::from_t(&phiw);
     let sv = crate::refmath::singular_values(&m)?;
     let (smax, smin) = (sv[0], *sv.last()?);
@@ -420,7 +437,6 @@ pub fn state_close<T: crate::sc::Sc>(w: &crate::run::World<T>, a: &crate::run::S
 pub enum Agree {
     Bitwise,
     Rounding,
-    Gated,
     No,
 }
 
@@ -435,7 +451,9 @@ pub fn agree_with_reference<T: crate::sc::Sc>(w: &crate::run::World<T>, referenc
     r.params = reported.params.clone();
     match state_close::<T>(w, &r, reported) {
         Some(true) => Agree::Rounding,
-        Some(false) => Agree::No,
-        None => Agree::Gated,
+        // undecidable (coefficients differ while the system is ill-conditioned or the truncation
+        // threshold is in play): reported, as under the bitwise rule - a one-flavour defect in
+        // the truncation decision lives exactly there (seeded change C11-f)
+        Some(false) | None => Agree::No,
     }
 }
